@@ -86,6 +86,48 @@ def reconcile(spec, objects=None, inputs=None, owner=(NS, OWNER_REF), templates=
                              configure))
 
 
+async def _reconcile_reprepared(spec, vf_name, vf_specs, objects, inputs, owner, configure):
+    """prepare through the real cache with an overlayRef dependency, update the ValueFunction so that the cache
+    re-prepares the function in the background, fetch the function from the cache and reconcile it"""
+    import asyncio
+
+    from koreo import cache
+    from koreo.resource_function.reconcile import reconcile_resource_function
+    from koreo.resource_function.structure import ResourceFunction
+
+    ku.reset()
+    await ku.offer_value_function(vf_name, copy.deepcopy(vf_specs[0]), version="1")
+    first = await ku.offer_resource_function("rf", copy.deepcopy(spec))
+    await ku.offer_value_function(vf_name, copy.deepcopy(vf_specs[1]), version="2")
+    fn = first
+    for _ in range(200):        # let the monitor task take its turns
+        await asyncio.sleep(0)
+        fn = cache.get_resource_from_cache(resource_class=ResourceFunction, cache_key="rf")
+        if fn is not first:
+            break
+    c = cl.Cluster(objects=copy.deepcopy(objects))
+    c.log_lookups = True
+    if configure is not None:
+        configure(c)
+    out = {"reprepared": fn is not first, "cluster": c, "raised": None, "outcome": None, "resource_id": None,
+           "prepared": hasattr(fn, "crud_config")}
+    if not out["prepared"]:
+        out["prepare"] = ku.outcome_obs(fn) if fn is not None else {"c": "missing"}
+        return out
+    try:
+        res = await reconcile_resource_function(api=c, location="verif", function=fn, owner=owner,
+                                                inputs=celpy.json_to_cel(inputs))
+        out["outcome"], out["resource_id"] = res.outcome, copy.deepcopy(res.resource_id)
+    except Exception as e:
+        out["raised"] = f"{type(e).__name__}: {e}"
+    return out
+
+
+def reconcile_reprepared(spec, vf_name, vf_specs, objects=None, inputs=None, owner=(NS, OWNER_REF), configure=None):
+    owner = (owner[0], copy.deepcopy(owner[1]))
+    return ku.run(_reconcile_reprepared(spec, vf_name, vf_specs, objects or {}, inputs or {}, owner, configure))
+
+
 def log_view(c) -> list[dict]:
     """the request log reduced to what the properties talk about"""
     return [{"method": e["method"], "plural": e["plural"], "name": e["name"], "nsArg": e["namespace_arg"],
